@@ -23,7 +23,7 @@ var solvers = []solverSpec{
 	{"z3-new", func(f string, t int, inc bool) []string {
 		if inc {
 			// deterministic resource limit (t is in milliseconds-equivalents: about 6M units per second)
-			return []string{"z3-new", fmt.Sprintf("rlimit=%d", t*6000), fmt.Sprintf("-t:%d", t*10), f}
+			return []string{"z3-new", fmt.Sprintf("rlimit=%d", t*6000), fmt.Sprintf("-t:%d", t*5), f}
 		}
 		return []string{"z3-new", fmt.Sprintf("-t:%d", t), f}
 	}},
@@ -241,7 +241,7 @@ func (vc *VC) Discharge(obls []*Obligation, workDir string, quickMs, slowMs int)
 			// reachability probes are satisfiable queries: wall-clock limit, the answer never turns into an alarm
 			r = runSolver(context.Background(), solvers[0], sf, ms, false, time.Duration(ms+1500)*time.Millisecond)
 		} else {
-			r = runSolver(context.Background(), solvers[0], sf, ms, true, time.Duration(ms*10+10000)*time.Millisecond)
+			r = runSolver(context.Background(), solvers[0], sf, ms, true, time.Duration(ms*6+6000)*time.Millisecond)
 		}
 		if r.err != nil {
 			setErr(fmt.Errorf("%s obligation %s: %v (script %s)", vc.key, o.Name, r.err, sf))
@@ -287,7 +287,7 @@ func (vc *VC) Discharge(obls []*Obligation, workDir string, quickMs, slowMs int)
 						all = false
 						break
 					}
-					pr := runSolver(context.Background(), solvers[0], pf, ms*2, true, time.Duration(ms*20+10000)*time.Millisecond)
+					pr := runSolver(context.Background(), solvers[0], pf, ms*2, true, time.Duration(ms*12+6000)*time.Millisecond)
 					os.Remove(pf)
 					tot += pr.dur.Milliseconds()
 					if pr.err != nil || len(pr.lines) == 0 || pr.lines[0] != "unsat" {
@@ -350,7 +350,7 @@ func (vc *VC) Discharge(obls []*Obligation, workDir string, quickMs, slowMs int)
 				comb := &Obligation{Func: vc.key, Name: "group", Pos: obls[idxs[0]].Pos, Guard: obls[idxs[0]].Guard, Goal: "(and " + strings.Join(goals, " ") + ")"}
 				sf := fmt.Sprintf("%s.grp%d.smt2", base, idxs[0])
 				if err := os.WriteFile(sf, []byte(vc.Standalone(comb, false)), 0o644); err == nil {
-					r := runSolver(context.Background(), solvers[0], sf, quickMs, true, time.Duration(quickMs*10+10000)*time.Millisecond)
+					r := runSolver(context.Background(), solvers[0], sf, quickMs, true, time.Duration(quickMs*6+6000)*time.Millisecond)
 					if vc.crossCheck && r.err == nil && len(r.lines) > 0 && r.lines[0] == "unsat" {
 						// thorough tier: the other two solvers must not contradict the grouped proof
 						for _, sv := range solvers[1:] {
